@@ -1273,6 +1273,12 @@ def run_fidp(ctx: Ctx, case: dict) -> list[str]:
     return probs
 
 
+def case_key(case: dict) -> str:
+    import hashlib
+
+    return case["stream"] + ":" + hashlib.sha1(json.dumps(case, sort_keys=True).encode()).hexdigest()
+
+
 def run_case(ctx: Ctx, case: dict) -> list[str]:
     if case["stream"] == "state":
         return run_state(ctx, case)
@@ -1425,13 +1431,13 @@ def run(ctx: Ctx) -> None:
         if any(st["op"] == "extend" and any(g[0] in ("MODEU", "PRIM", "PBS") for g in st["gates"])
                for st in case["steps"]):
             ctx.count("hist:oracle-only")
-        ctx.case(json.dumps(case), info["state_changed_between_calls"] > 0)
+        ctx.case(case_key(case), info["state_changed_between_calls"] > 0)
         if probs:
             report(ctx, case, probs)
 
     def one_simple(case, fn, nontrivial):
         probs = fn(ctx, case)
-        ctx.case(json.dumps(case), nontrivial)
+        ctx.case(case_key(case), nontrivial)
         if probs:
             report(ctx, case, probs)
 
@@ -1521,6 +1527,8 @@ def run(ctx: Ctx) -> None:
 def replay(ctx: Ctx, path: str) -> None:
     data = json.load(open(path))
     case = data["replay"]["case"]
+    if "stream" not in case and "case" in case:  # replay of an unresolved correspondence disagreement
+        case = case["case"]
     probs = run_case(ctx, case)
     ctx.case("replay", True, sample=case)
     for p in probs:
